@@ -231,3 +231,10 @@ package libaudit
 //@ ensures[C17] !old(done(c.closeOnce)) ==> envlen() > old(envlen()) && envkind(envlen() - 1) == kClose() && (forall i int :: old(envlen()) <= i && i < envlen() - 1 ==> envkind(i) != kClose())
 //@ ensures[C17] !old(done(c.closeOnce)) && !c.clearPIDOnClose ==> envlen() == old(envlen()) + 1
 //@ ensures[C17] !old(done(c.closeOnce)) && c.clearPIDOnClose ==> envlen() == old(envlen()) + 2 && sendIs(old(envlen()), 1001, 44) && statusWords(old(envlen()), 4, 0, 0, 0, 0, 0, 0, 0, 0, 0, 0)
+
+// DeleteRules: lists, then deletes one by one; any failure is reported with count 0.
+//@ func (*libaudit.AuditClient).DeleteRules
+//@ requires !isNil(c.Netlink)
+//@ modifies envbytes, alloc, envlog
+//@ ensures[C08] !isNil(result1) ==> result0 == 0
+//@ ensures[C08] envlen() > old(envlen()) && sendIs(old(envlen()), 1013, 0)
